@@ -579,5 +579,64 @@ def run(ctx: Ctx):
     funcs = [repo.func(q) for q in DRIVERS] + [repo.func(q) for q in SQRT_SCOPE_EXTRA]
     ctx.guarded(sqrt_guard, ctx, funcs)
     ctx.guarded(last_mode, ctx)
+    res.rule("ELEMENT-VS-POSITION", "in every driver the loop variable of a sweep over a *filtered* list of mode numbers is only compared with elements of that list (or with mode numbers), never with a position in / the length of the list", floor=1)
+    ctx.guarded(element_vs_position, ctx)
     res.stats["drivers"] = list(DRIVERS)
     res.stats["states_explored"] = states
+
+
+# ---------------------------------------------------------------------------------
+# ELEMENT-VS-POSITION: a mode number is not a position in the list of swept modes
+# ---------------------------------------------------------------------------------
+def element_vs_position(ctx: Ctx):
+    """In every driver: for a loop `for m in L` over a list L that is a *filtered* sequence of
+    mode numbers (`[m for m in range(n) if m not in fixed]`), m is an element of L, not an index
+    into it.  Comparing m with `len(L) - 1` (or a name bound to it) confuses the two: they
+    coincide only when nothing was filtered out.  The deferred-normalisation / MTTKRP-reuse
+    guards (`mode != modes[-1]`) must compare elements with elements."""
+    repo, res = ctx.repo, ctx.res
+    n = 0
+    for q in DRIVERS:
+        f = repo.func(q)
+        nodes = list(own_scope_nodes(f.node))
+        filtered = {}
+        for s in nodes:
+            if isinstance(s, ast.Assign) and len(s.targets) == 1 and isinstance(s.targets[0], ast.Name) and isinstance(s.value, ast.ListComp) and len(s.value.generators) == 1 and s.value.generators[0].ifs:
+                g = s.value.generators[0]
+                if isinstance(g.iter, ast.Call) and isinstance(g.iter.func, ast.Name) and g.iter.func.id == "range":
+                    filtered[s.targets[0].id] = s
+        if not filtered:
+            continue
+        # names bound to a position / length of a filtered list
+        pos_names = {}
+        for s in nodes:
+            if isinstance(s, ast.Assign) and len(s.targets) == 1 and isinstance(s.targets[0], ast.Name):
+                for c in ast.walk(s.value):
+                    if isinstance(c, ast.Call) and isinstance(c.func, ast.Name) and c.func.id == "len" and c.args and isinstance(c.args[0], ast.Name) and c.args[0].id in filtered:
+                        pos_names[s.targets[0].id] = c.args[0].id
+
+        def position_of(e):
+            for c in ast.walk(e):
+                if isinstance(c, ast.Call) and isinstance(c.func, ast.Name) and c.func.id == "len" and c.args and isinstance(c.args[0], ast.Name) and c.args[0].id in filtered:
+                    return c.args[0].id
+                if isinstance(c, ast.Name) and c.id in pos_names:
+                    return pos_names[c.id]
+            return None
+
+        for loop in nodes:
+            if not (isinstance(loop, ast.For) and isinstance(loop.target, ast.Name) and isinstance(loop.iter, ast.Name) and loop.iter.id in filtered):
+                continue
+            m, L = loop.target.id, loop.iter.id
+            for c in ast.walk(loop):
+                if isinstance(c, ast.Compare) and len(c.ops) == 1 and isinstance(c.ops[0], (ast.Eq, ast.NotEq, ast.Lt, ast.LtE, ast.Gt, ast.GtE)):
+                    l, r = c.left, c.comparators[0]
+                    for a, b in ((l, r), (r, l)):
+                        if is_name(a, m):
+                            n += 1
+                            pl = position_of(b)
+                            ok = pl is None
+                            res.instance("ELEMENT-VS-POSITION", f"{f.qname}: {src(c)[:60]}", sample={"line": c.lineno, "element_of": L, "compared_with_position_in": pl, "ok": ok})
+                            if not ok:
+                                ctx.finding("ELEMENT-VS-POSITION", f, c, f"`{src(c)[:80]}` compares `{m}`, an ELEMENT of the filtered mode list `{L}` (a mode number), with a POSITION / length of `{pl}`: the two coincide only when no mode was filtered out (e.g. no fixed modes). The guard then fires for the wrong mode, e.g. normalising before the error shortcut that reuses the last MTTKRP", construct=f"{f.name}: {src(c)[:60]} element vs position")
+    if n == 0:
+        raise AnalysisError("ELEMENT-VS-POSITION: no comparison on the loop variable of a filtered mode list was found in any driver; the rule's anchors vanished")
